@@ -122,3 +122,11 @@ package dnsutils
 //@     invariant 0 <= it0 && it0 < 3 && section == sec(m, it0) && 0 <= it1 && it1 <= len(section)
 //@     invariant forall s range 3, i int :: inSec(m, s, i) ==> hdrAt(m, s, i).Ttl == ite(hdrAt(m, s, i).Rrtype == 41 || s > it0 || (s == it0 && i >= it1), old(hdrAt(m, s, i).Ttl), ttl)
 //@     invariant forall h *dns.RR_Header :: (forall s range 3, i int :: inSec(m, s, i) ==> hdrAt(m, s, i) != h) ==> h.Ttl == old(h.Ttl)
+
+// GenEmptyReply (C03): a reply to q with the given rcode: ID and question of q, QR set.
+//@ func GenEmptyReply [C03]
+//@   requires q != nil
+//@   ensures result != nil && fresh(result) && result.Id == q.Id && result.Response && result.Rcode == rcode && len(result.Extra) == 0
+//@   ensures len(q.Question) > 0 ==> len(result.Question) == 1 && result.Question[0] == q.Question[0]
+//@ func FakeSOA
+//@   ensures result != nil && fresh(result)
